@@ -11,6 +11,7 @@ import warnings
 
 from vf import ref_schema as S
 from vf import universe as U
+from vf.core import disturb_process
 from vf.core import vacuous, HarnessError, Tally
 
 LEVEL = "exploration"
@@ -245,6 +246,7 @@ def check_aliases(t, clsname, shape, inst):
 
 def work(chunk):
     t = Tally()
+    disturb_process()
     for clsname, thorough in chunk:
         cls = U.cls_by_name(clsname)
         names = defined_names(cls)
